@@ -11,7 +11,7 @@ META = {
             "(1) in EKO.__exit__ and Builder.__exit__ no path reaches close()/dump() unless the exception type is None (path-"
             "condition analysis: the guard must be a pure None test, so KeyboardInterrupt/SystemExit are covered); (2) the "
             "permanent path is published atomically: the function that materialises the archive writes a temporary sibling and "
-            "moves it over the target with os.replace/Path.replace/rename - after the writer has been closed, i.e. outside every "
+            "moves it over the target with os.replace/Path.replace/rename (shutil.move only from a sibling of the target: across file systems it copies) - after the writer has been closed, i.e. outside every "
             "`with` block that opens a file for writing - (accepted alternatives: move-aside-and-restore, or, for "
             "a new archive, in-place writing under a handler that removes the partial file and re-raises); (3) the permanent "
             "path is never unlinked/truncated ahead of a completed dump; (4) who-may-write: no other function in eko/, ekobox/ "
@@ -124,6 +124,28 @@ def _perm_aliases(fn):
 def _is_perm(expr, aliases):
     s = ast.unparse(expr)
     return s.endswith("access.path") or (isinstance(expr, ast.Name) and expr.id in aliases)
+
+
+def _is_sibling(expr, fn, aliases):
+    """is `expr` a path in the directory of the permanent path (perm.with_name(..), perm.with_suffix(..), perm.parent / ..)?"""
+    def derived(e):
+        if isinstance(e, ast.Call) and isinstance(e.func, ast.Attribute) and e.func.attr in ("with_name", "with_suffix", "with_stem") \
+                and _is_perm(e.func.value, aliases):
+            return True
+        if isinstance(e, ast.BinOp) and isinstance(e.op, ast.Div) and isinstance(e.left, ast.Attribute) and e.left.attr == "parent" \
+                and _is_perm(e.left.value, aliases) and not any(isinstance(x, ast.Constant) and isinstance(x.value, str) and ("/" in x.value or ".." in x.value)
+                                                               for x in ast.walk(e.right)):
+            return True
+        if isinstance(e, ast.Call) and _callee(e) in ("Path", "pathlib.Path") and e.args:
+            return derived(e.args[0])
+        return False
+
+    if derived(expr):
+        return True
+    if isinstance(expr, ast.Name):
+        defs = [n.value for n in ast.walk(fn) if isinstance(n, ast.Assign) and any(isinstance(t, ast.Name) and t.id == expr.id for t in n.targets)]
+        return bool(defs) and all(derived(d) for d in defs)
+    return False
 
 
 def _write_sites(fn, aliases):
@@ -245,6 +267,15 @@ def run(chk):
                 open_writers = [w for w in ast.walk(f.node) if isinstance(w, ast.With)
                                 and any(m is c for st_ in w.body for m in ast.walk(st_))
                                 and any(k2 == "write" for it in w.items for _c2, _t2, k2 in _write_sites(it.context_expr, al))]
+                if _callee(c) == "shutil.move":
+                    # shutil.move is a rename only inside one file system; otherwise it COPIES onto the target path and removes the
+                    # source, so a failure during the copy leaves a partial file under the permanent name.  Accepted only when the
+                    # source is a sibling of the permanent path (same directory, hence same file system)
+                    chk.decide(_is_sibling(c.args[0], f.node, al), "atomic-publish", f.qname,
+                               f"`{ast.unparse(c)[:80]}` publishes the archive with shutil.move from a file that is not a sibling of the "
+                               f"permanent path: across file systems this is a copy onto the target (not atomic) - a failure or an "
+                               f"interrupt during the copy leaves a partial archive, or destroys the previous one", where=where,
+                               instance="publish by copy across file systems")
                 chk.decide(not open_writers, "atomic-publish", f.qname,
                            f"`{ast.unparse(c)[:80]}` renames the temporary file onto the permanent path while the writer opened by "
                            f"`{ast.unparse(open_writers[0].items[0].context_expr)[:60] if open_writers else ''}` is still open: the archive is "
